@@ -339,7 +339,7 @@ Fixpoint uvarint_dec (i : nat) (buf : list N) : option N :=
       if Nat.eqb i 10 then None
       else if b <? 128 then (if Nat.eqb i 9 && (1 <? b) then None else Some b)
       else match uvarint_dec (S i) t with
-           | Some r => Some ((b - 128) + 128 * r)
+           | Some r => Some (b mod 128 + 128 * r)          (* b & 0x7f *)
            | None => None
            end
   end.
